@@ -295,7 +295,7 @@ pub fn check_interface(
     Some(summary)
 }
 
-pub fn run(ctx: &mut Ctx) {
+fn run_main(ctx: &mut Ctx) {
     crate::witness::for_each(ctx, |ctx, case, script, lib, built| {
         let input = json!({"witness": script.name, "library": witgen::library_text(lib), "ops": compose::ops_json(&built.ops)});
         if let Outcome::Ok(bytes) = encode_outcome(&built.graph, true, false) {
@@ -305,7 +305,7 @@ pub fn run(ctx: &mut Ctx) {
     });
     let total = ctx.n(15_000, 1_500_000);
     for case in ctx.cases(total) {
-        if ctx.out_of_budget() {
+        if ctx.out_of_budget_frac(0.7) {
             ctx.count("budget-stop");
             break;
         }
@@ -391,4 +391,10 @@ pub fn run(ctx: &mut Ctx) {
         }
         let _ = WorldItem::Iface { id: String::new() };
     }
+}
+
+pub fn run(ctx: &mut Ctx) {
+    run_main(ctx);
+    // second workload: the same WAC program with its independent statements in another order
+    crate::props::c04::statement_order_workload(ctx);
 }
